@@ -113,7 +113,7 @@ def program(draw):
     if mixin:
         steps.insert(0, {'op': 'define', 'cls': 'Mix'})
     unrelated = None
-    cand = [p for p in root['params'] if numeric_leaf(p['T']) and p['T']['k'] != 'array']
+    cand = [p for p in root['params'] if numeric_leaf(p['T'])]     # (arrays too: 'max' ends up in their members)
     if cand and draw(st.integers(0, 2)) == 0:
         # an unrelated class whose parameter is declared with the very same datatype object as a parameter of the root class
         # (a module level constant like UInt8), plus a datatype keyword of its own
